@@ -17,7 +17,10 @@ def nl(xs):
 def row_term(r):
     # ids are 0..n-1 in Send order on each side (checked here), so only the counts go to Coq
     assert r["ssent"] == list(range(len(r["ssent"]))) and r["csent"] == list(range(len(r["csent"]))), "rig id numbering"
-    return gpair(gnat(FAULTS.index(r["fault"])), gpair(gnat(len(r["ssent"])), nl(r["sburst"])),
+    # "poststall" (a POST in flight across the pong, longer than the client's upgrade time-out) is not a fault of
+    # the websocket: the model's prediction and the oracle are those of an undisturbed upgrade (code 0)
+    code = 0 if r["fault"] == "poststall" else FAULTS.index(r["fault"])
+    return gpair(gnat(code), gpair(gnat(len(r["ssent"])), nl(r["sburst"])),
                  gpair(gnat(len(r["csent"])), nl(r["cburst"])), nl(r["crecv"]), nl(r["srecv"]),
                  gpair(gbool(r["ctr1"] == "websocket"), gbool(r["str1"] == "websocket"),
                        gbool(r["cclosed"]), gbool(r["sclosed"])))
